@@ -341,7 +341,9 @@ def judge(case, obs, verdicts):
         return "diagnosed", None, None
     if obs.ret == 0:
         el = error_lines(obs.diag)
-        msg = el[0].split(b"error:", 1)[1].decode("latin-1") if el else ""
+        # the LAST error line names the construct that gave up (earlier ones are often the detailed
+        # "expected param ..." lines of a helper, which vary with the types involved)
+        msg = el[-1].split(b"error:", 1)[1].decode("latin-1") if el else ""
         key = "ret0-after-error:%s" % slug(msg, 3)
         return "violation", KEY_ALIAS.get(key, key), "an `error:` diagnostic was printed (%s) but compilation returned 0" % msg.strip()[:80]
     first = obs.diag.split(b"\n")[0].decode("latin-1") if obs.diag else ""
